@@ -55,6 +55,7 @@ func runC05(ctx *Ctx) {
 		}
 	}
 	ctx.Cov.Component("plain rendering vs rewritten renderings (verdict and JSON must be identical)", ctx.Cov.Evaluations, len(ctx.Violations), "")
+	commentShapes(ctx)
 	parensSearch(ctx, r)
 }
 
@@ -198,4 +199,78 @@ func firstDiff(a, b []byte) string {
 		hb = len(b)
 	}
 	return fmt.Sprintf("…%s… vs …%s…", a[lo:ha], b[lo:hb])
+}
+
+
+// commentShapes: every SHAPE of a comment line — empty "#", "##", runs of '#', block comments whose text begins or ends
+// with '#', on one line or over several — inserted at every kind of place between directives: after a keyword line,
+// after a parameter line, after a parenthesis, and directly after a schema / enum / regex body (where the comment is
+// first seen by the schema library, which delimits the body). The document with the comment must give the result of
+// the document without it. A failure is identified by the place class and the shape ("comment:<place>:<shape>").
+func commentShapes(ctx *Ctx) {
+	shapes := []struct{ id, text string }{
+		{"empty-hash", "#"}, {"hash-blank", "# "}, {"hash-text", "# x"}, {"hash-hash-text", "# x # y"}, {"double-hash", "##"}, {"double-hash-text", "## x"},
+		{"block-one-line", "### x ###"}, {"block-empty", "######"}, {"block-lines", "###\nx\nGET /n\n###"}, {"block-then-hash", "### x ####"},
+		{"four-hash-block", "#### x ###"}, {"four-hash-both", "#### x ####"}, {"five-hash-block", "##### x ###"}, {"four-hash-lines", "####\nx\n###"},
+		{"block-inner-hash", "### a # b ## c ###"},
+	}
+	type place struct {
+		id, before, after string
+		body              bool
+	}
+	places := []place{
+		{"after-keyword-line", "JSIGHT 0.3\nINFO\n", "  Title \"t\"\nGET /a\n  200 any\n", false},
+		{"after-parameter-line", "JSIGHT 0.3\nGET /a\n", "  200 any\nTYPE @b\n{}\n", false},
+		{"after-any-body", "JSIGHT 0.3\nGET /a\n  200 any\n", "TYPE @b\n{}\n", false},
+		{"after-open-paren", "JSIGHT 0.3\nGET /a\n(\n", "  200 any\n)\nTYPE @b\n{}\n", false},
+		{"after-close-paren", "JSIGHT 0.3\nGET /a\n(\n  200 any\n)\n", "TYPE @b\n{}\n", false},
+		{"at-end-of-file", "JSIGHT 0.3\nGET /a\n  200 any\n", "", false},
+		{"after-schema-body", "JSIGHT 0.3\nTYPE @a\n{\"b\": 0}\n", "TYPE @b\n{}\nGET /a\n  200 @a\n", true},
+		{"after-response-schema", "JSIGHT 0.3\nGET /a\n  200\n  {\"b\": 0}\n", "  404 any\nTYPE @b\n{}\n", true},
+		{"after-enum-body", "JSIGHT 0.3\nENUM @e\n[1, 2]\n", "TYPE @b\n{}\nGET /a\n  200 any\n", true},
+		{"after-regex-body", "JSIGHT 0.3\nTYPE @a regex\n/ab/\n", "TYPE @b\n{}\nGET /a\n  200 any\n", true},
+		{"after-schema-at-end-of-file", "JSIGHT 0.3\nGET /a\n  200 any\nTYPE @a\n{\"b\": 0}\n", "", true},
+	}
+	cases, bad := 0, 0
+	for _, pl := range places {
+		plain := RunProject(SingleFile([]byte(pl.before+pl.after)), false)
+		if !plain.Accepted() {
+			ctx.Break("comment shapes: the plain document of place " + pl.id + " is not accepted: " + plain.Verdict())
+			continue
+		}
+		for _, sh := range shapes {
+			for _, ind := range []string{"", "  "} {
+				for _, nl := range []string{"\n", "\r\n"} {
+					doc := pl.before + ind + sh.text + "\n" + pl.after
+					if nl != "\n" {
+						doc = strings.ReplaceAll(doc, "\n", nl)
+					}
+					res := RunProject(SingleFile([]byte(doc)), false)
+					cases++
+					ctx.Cov.Count([]byte(doc), true)
+					ctx.Cov.Hit("comment shape at " + pl.id)
+					if res.Panic != "" {
+						continue
+					}
+					if res.Accepted() != plain.Accepted() || !bytes.Equal(res.JSON, plain.JSON) {
+						bad++
+						in := projectInput(SingleFile([]byte(doc)))
+						in["op"] = "rewrite"
+						in["plain"] = hx([]byte(pl.before + pl.after))
+						what := fmt.Sprintf("the comment %q %s changes the result: without it: %s; with it: %s", sh.text, strings.ReplaceAll(pl.id, "-", " "), plain.Verdict(), res.Verdict())
+						if res.Accepted() {
+							what = fmt.Sprintf("the comment %q %s changes the catalog: %s", sh.text, strings.ReplaceAll(pl.id, "-", " "), firstDiff(plain.JSON, res.JSON))
+						}
+						cls := "between-directives"
+						if pl.body {
+							cls = "after-library-body"
+						}
+						ctx.Violate(Violation{Kind: "wrong-output", Site: "comments", What: what, Input: in, Observed: res.Verdict(), Expected: plain.Verdict(),
+							Signature: "comment:" + cls + ":" + sh.id})
+					}
+				}
+			}
+		}
+	}
+	ctx.Cov.Component("comment shapes (empty, runs of #, block comments beginning / ending with #) at every kind of place between directives", cases, bad, "")
 }
